@@ -94,13 +94,13 @@ void SectionHDF5::repository(const none_t t) {
 
 
 void SectionHDF5::link(const std::string &id) {
-    if (group().hasGroup("link"))
-        link(none);
-
     File tmp = file();
     auto found = tmp.findSections(util::IdFilter<Section>(id));
     if (found.empty())
         throw std::runtime_error("SectionHDF5::link: Section not found in file!");
+
+    if (group().hasGroup("link"))
+        link(none);
 
     auto target = dynamic_pointer_cast<SectionHDF5>(found.front().impl());
 
